@@ -190,6 +190,52 @@ func Run(c *core.Ctx) {
 					return true
 				})
 				lenOK = n != nil && rng != nil && pat.Same(info, rng.X, recv) && n.Pos() < rng.Pos()
+				if !lenOK && n == nil && rng == nil {
+					// the body is delegated to a same-package helper called with the receiver:
+					// the count/elements tie must hold inside the helper for its own parameter
+					core.Inspect(fn.Decl.Body, func(m ast.Node) bool {
+						call, ok := m.(*ast.CallExpr)
+						if !ok || lenOK {
+							return true
+						}
+						f := core.CalleeFunc(info, call)
+						if f == nil || f.Pkg() == nil || f.Pkg().Path() != fn.Pkg.PkgPath {
+							return true
+						}
+						h := c.FnOf(f)
+						if h == nil || h.Decl.Body == nil {
+							return true
+						}
+						var hp []*ast.Ident
+						for _, fl := range h.Decl.Type.Params.List {
+							hp = append(hp, fl.Names...)
+						}
+						for i, a := range call.Args {
+							if i >= len(hp) {
+								break
+							}
+							inner := ast.Unparen(a)
+							if cv, ok := inner.(*ast.CallExpr); ok && len(cv.Args) == 1 { // conversion [][]byte(o)
+								inner = ast.Unparen(cv.Args[0])
+							}
+							if !pat.Same(info, inner, recv) {
+								continue
+							}
+							hn, _ := pat.Expr("_enc.EncodeLength(uint32(len(_o)))").Find(info, h.Decl.Body, pat.Binds{"_o": hp[i]})
+							var hr *ast.RangeStmt
+							core.Inspect(h.Decl.Body, func(mm ast.Node) bool {
+								if r, ok := mm.(*ast.RangeStmt); ok && hr == nil {
+									hr = r
+								}
+								return true
+							})
+							if hn != nil && hr != nil && pat.Same(info, hr.X, hp[i]) && hn.Pos() < hr.Pos() {
+								lenOK = true
+							}
+						}
+						return true
+					})
+				}
 				if lenOK {
 					got = strings.Replace(strings.Replace(got, "Len Star{", "Len@a Loop@a{", 1), "Len@a Star{", "Len@a Loop@a{", 1)
 				}
@@ -617,11 +663,8 @@ func adaptor(c *core.Ctx) {
 		ok := false
 		if len(ps) == 3 {
 			b := pat.Binds{"_f": ps[1], "_v": ps[2]}
-			n, b2 := pat.Stmt("_x = &HashElement{Field: _f, Value: _v}").Find(info, fn.Decl.Body, b)
-			if n != nil {
-				a, _ := pat.Stmt("_d.obj = append(_h, _x)").Find(info, fn.Decl.Body, b2)
-				ok = a != nil
-			}
+			a, _ := pat.Stmt("_d.obj = append(_h, &HashElement{Field: _f, Value: _v})").Find(info, fn.Decl.Body, b)
+			ok = a != nil
 		}
 		c.Check("R3.wiring", "adaptor/Hset", fn.Decl.Pos(), ok, "Hset(key, field, value) appends HashElement{Field: field, Value: value} (order preserved)")
 	}
@@ -630,11 +673,8 @@ func adaptor(c *core.Ctx) {
 		ok := false
 		if len(ps) == 3 {
 			b := pat.Binds{"_s": ps[1], "_m": ps[2]}
-			n, b2 := pat.Stmt("_x = &ZSetElement{Member: _m, Score: _s}").Find(info, fn.Decl.Body, b)
-			if n != nil {
-				a, _ := pat.Stmt("_d.obj = append(_z, _x)").Find(info, fn.Decl.Body, b2)
-				ok = a != nil
-			}
+			a, _ := pat.Stmt("_d.obj = append(_z, &ZSetElement{Member: _m, Score: _s})").Find(info, fn.Decl.Body, b)
+			ok = a != nil
 		}
 		c.Check("R3.wiring", "adaptor/Zadd", fn.Decl.Pos(), ok, "Zadd(key, score, member) appends ZSetElement{Member: member, Score: score}")
 	}
